@@ -38,6 +38,7 @@ pub fn exec(op: &str, args: &[&str]) -> String {
         "tojson" => enc::op_tojson(args),
         "elg" => enc::op_elg(args),
         "ae" => enc::op_ae(args),
+        "dlog" | "dlogsearch" => enc::op_dlog(args),
         "kdf" => kdf::op_kdf(args),
         "fresh" => fresh::op_fresh(args),
         "drop" => secrets::op_drop(args),
